@@ -50,6 +50,20 @@ class EnumMember:
         return f"{self.cls}.{self.name}"
 
 
+class IntEnumMember(int):
+    """A member of an IntEnum: an int for every comparison, hash and arithmetic purpose, that remembers its name."""
+
+    def __new__(cls, value: int, enum_cls: str = "", name: str = "") -> "IntEnumMember":
+        obj = super().__new__(cls, value)
+        obj.enum_cls, obj.enum_name = enum_cls, name  # type: ignore[attr-defined]
+        return obj
+
+    def __repr__(self) -> str:
+        return f"{self.enum_cls}.{self.enum_name}"  # type: ignore[attr-defined]
+
+    __str__ = __repr__
+
+
 class Resolver:
     def __init__(self, universe: Universe) -> None:
         self.u = universe
@@ -320,6 +334,8 @@ class Resolver:
                 if attr is not None and attr.kind == "value":
                     val = self.const(attr.module or klass.module, attr.target, klass, depth + 1)
                     if self._is_enum(klass):
+                        if isinstance(val, int) and not isinstance(val, bool) and any(ast.unparse(b).split(".")[-1] in ("IntEnum", "IntFlag") for k in self.mro(klass) for b in k.node.bases):
+                            return IntEnumMember(val, klass.name, expr.attr)
                         return EnumMember(klass.name, expr.attr, val)
                     return val
             if base is not None and base.kind == "module" and isinstance(base.target, Module):
@@ -545,7 +561,13 @@ class Resolver:
             if isinstance(expr.value, ast.Name) and expr.value.id == "self":
                 klass = self._self_class(fn)
                 if klass is not None:
-                    return self.self_attr_types(klass, expr.attr)
+                    found_t = self.self_attr_types(klass, expr.attr)
+                    if not found_t:
+                        for k in self.mro(klass):
+                            if expr.attr in k.methods:  # a property: what it is annotated to return
+                                found_t = self.ann_classes(k.module, getattr(k.methods[expr.attr].node, "returns", None))
+                                break
+                    return found_t
             owners = self.expr_classes(fn, expr.value, depth + 1)
             out: List[ClassInfo] = []
             for owner in owners:
@@ -558,9 +580,8 @@ class Resolver:
                     if expr.attr in klass.methods:
                         prop = klass.methods[expr.attr]
                         ret = getattr(prop.node, "returns", None)
-                        if ret is not None:
-                            got = self.resolve_class(klass.module, ret)
-                            if got is not None and got not in out:
+                        for got in self.ann_classes(klass.module, ret):
+                            if got not in out:
                                 out.append(got)
                         break
             return out
@@ -588,9 +609,8 @@ class Resolver:
                                 out.append(klass)
                         continue
                     ret = getattr(callee.node, "returns", None)
-                    if ret is not None:
-                        got = self.resolve_class(callee.module, ret)
-                        if got is not None and got not in out:
+                    for got in self.ann_classes(callee.module, ret):
+                        if got not in out:
                             out.append(got)
             return out
         return []
